@@ -4,6 +4,7 @@ import json, os
 HERE = os.path.dirname(os.path.dirname(os.path.abspath(__file__)))
 props = [json.loads(l) for l in open(os.path.join(HERE, "properties.jsonl"))]
 from manifest_table import CHECKS, NOT_APPLICABLE  # noqa
+from manifest_audit import AUDIT, NOTE  # noqa
 m = {
     "version": 1,
     "setup_cmd": "true",
@@ -30,8 +31,8 @@ for c in CHECKS:
         "evidence_file": f"/verif/evidence/{pid}.json",
         "replay_cmd_template": f"bin/check {pid} --replay {{path}}",
         "engine": "tlc",
-        "level_claimed": {"category": c["category"], "text": c["text"], "design_ref": c.get("design_ref", "DESIGN.md section 4 " + pid)},
-        "level_note": c["note"],
+        "level_claimed": {"category": c["category"], "text": (c["text"] + " " + AUDIT.get(pid, "")).strip(), "design_ref": c.get("design_ref", "DESIGN.md section 4 " + pid)},
+        "level_note": NOTE.get(pid, c["note"]),
         "technique": c["technique"],
     })
 claimed = {c["property_id"] for c in CHECKS}
